@@ -7,7 +7,7 @@
    generated one (Gen/Melodies.v, re-read from the source on every run). *)
 From Coq Require Import ZArith QArith Qround List Bool Sorted.
 From RV Require Import Base.Wire Base.Text Device.DBuzzer Device.BuzzerSpec Device.MelodySpec
-  Gen.Melodies Proofs.BuzzerP.
+  Gen.Melodies Proofs.BuzzerP Proofs.BuzzerP2.
 Import ListNotations.
 Open Scope Z_scope.
 
@@ -150,6 +150,55 @@ Theorem C16_getters : forall pin neg tbl default ops,
 Proof. exact getters_all_sequences. Qed.
 Print Assumptions C16_getters.
 
+(* ---- play_tone: a positive frequency sounds tone(round f), for exactly delay(floor d) when a duration
+   is given, then noTone; a frequency <= 0 only issues noTone (and the delay).  State included. *)
+Theorem C16_play_tone : forall pin neg tbl st f d,
+  (qlt q0 f = true ->
+     dstep pin neg tbl st (PlayTone f None) = (mkbz true f f, [Tone pin (tone_of f)]) /\
+     dstep pin neg tbl st (PlayTone f (Some d)) =
+       (mkbz false q0 f, [Tone pin (tone_of f)] ++ dl (c_ulong neg d) ++ [NoTone pin])) /\
+  (qle f q0 = true ->
+     dstep pin neg tbl st (PlayTone f None) = (quiet st, [NoTone pin]) /\
+     dstep pin neg tbl st (PlayTone f (Some d)) = (quiet st, [NoTone pin] ++ dl (c_ulong neg d))).
+Proof. exact play_tone_protocol. Qed.
+Print Assumptions C16_play_tone.
+
+(* ---- beep: with on/off >= 0 and n >= 1 beeps the call lasts n*on + (n-1)*off ms *)
+Theorem C16_beep_duration : forall pin neg tbl st f on off times,
+  let target := clamp0 (match f with Some q => q | None => get_last_frequency st end) in
+  let n := c_int times in
+  let tr := snd (dstep pin neg tbl st (Beep f on off times)) in
+  qlt q0 target = true -> qle q0 on = true -> qle q0 off = true -> 1 <= n ->
+  delay_sum tr = n * Qfloor on + (n - 1) * Qfloor off.
+Proof. exact beep_duration. Qed.
+Print Assumptions C16_beep_duration.
+
+(* ---- melody, read off the trace: the tones are the tune's sounded notes in order, the delays are
+   floor(beats * 60000/tempo) note by note, one noTone per note, total length <= beats * 60000/tempo *)
+Theorem C16_melody_notes : forall pin neg st name tempo t0 seq,
+  tlookup name spec_melodies = Some (t0, seq) ->
+  let beat := (Qmake 60000 1 / eff_tempo t0 tempo)%Q in
+  let tr := snd (dstep pin neg emitter_melodies st (Melody name tempo)) in
+  tones tr = map tone_of (positives (map fst seq)) /\
+  delays tr = note_delays beat seq /\
+  notones tr = length seq /\
+  (inject_Z (delay_sum tr) <= beats_total seq * beat)%Q.
+Proof. exact melody_notes. Qed.
+Print Assumptions C16_melody_notes.
+
+(* ---- get_last_frequency, exactly (not only up to rounding): after any call in any state it is the
+   unrounded frequency of the last tone that call sounded, unchanged when the call sounded none *)
+Theorem C16_last_frequency_exact : forall pin neg tbl st o,
+  get_last_frequency (fst (dstep pin neg tbl st o)) = last_after tbl st o.
+Proof. exact last_frequency_exact. Qed.
+Print Assumptions C16_last_frequency_exact.
+
+Theorem C16_last_frequency_sweep : forall pin neg tbl st s e d steps,
+  qlt q0 e = true ->
+  (get_last_frequency (fst (dstep pin neg tbl st (Sweep s e d steps))) == e)%Q.
+Proof. exact last_frequency_sweep. Qed.
+Print Assumptions C16_last_frequency_sweep.
+
 (* ---- non-vacuity *)
 Definition q (n : Z) : Q := Qmake n 1.
 
@@ -188,3 +237,15 @@ Example C16_nonvacuous_melody :
   parser_melody parser_melody_names [98;101;101;112] (* "beep" *) = None.
 Proof. vm_compute. repeat split. Qed.
 Print Assumptions C16_nonvacuous_melody.
+
+Example C16_nonvacuous_batch2 :
+  snd (dstep 8 neg_literal emitter_melodies (init (q 440)) (PlayTone (Qmake 881 2) (Some (Qmake 5 2))))
+    = [Tone 8 441; Delay 2; NoTone 8] /\
+  delay_sum (snd (dstep 8 neg_literal emitter_melodies (init (q 440)) (Beep None (q 10) (q 5) (q 3)))) = 40 /\
+  delays (snd (dstep 8 neg_literal emitter_melodies (init (q 440)) (Melody n_siren (Some (q 90)))))
+    = [500; 500; 500; 500; 500; 500] /\
+  last_after emitter_melodies (init (q 440)) (Melody n_error None) = C4 /\
+  (last_after emitter_melodies (init (q 440)) (Sweep (q 440) (q (-5)) (q 50) (q 5)) == q 110)%Q /\
+  last_after emitter_melodies (init (q 440)) (Beep (Some (q 600)) (q 1) (q 1) (q 0)) = q 440.
+Proof. vm_compute. repeat split. Qed.
+Print Assumptions C16_nonvacuous_batch2.
